@@ -283,7 +283,7 @@ Proof.
 Qed.
 
 (* ------------------------------------------------------------------ the written text, lexed again *)
-From PV Require Spec.LuaLex Spec.SameCode Model.Lexer Model.LexToken Proofs.FmtRelexMain.
+From PV Require Spec.LuaLex Spec.SameCode Instances.HoldsC09 Model.Lexer Model.LexToken Proofs.FmtRelexMain.
 
 (* the token-level clause: "its output contains exactly the input's tokens and comments, in order, with identical
    spelling (comments up to white space inside them); ... and the token count is unchanged".
@@ -324,9 +324,41 @@ Theorem C09_echo_same_code : forall src ss lts root e,
 Proof. exact FmtRelexMain.echo_same_code. Qed.
 Print Assumptions C09_echo_same_code.
 
+(* the whole instance predicate, for the model: inside the domain the observation (input tokens, tree, end position,
+   tokens of the text luafmt wrote) satisfies holds_C09 (Instances/HoldsC09.v: the predicate the extracted monitor
+   evaluates on the implementation's output) - parsed to the end, same code view, and the line-scoped constructs
+   keep their extent.  The last clause holds in the strongest form: for every code token, there is a newline token
+   between it and the previous code token in the written text exactly when there was one in the input (nl_before
+   is unchanged): the formatter never removes the last line break of a run, never adds one to a run without, and
+   line breaks inside block comments stay inside.  So a one-line `if (c) stmt [else stmt]` stays on one line and
+   what followed it on a later line stays on a later line. *)
+Theorem C09_luafmt_holds : forall w src ss lts root e valid,
+  Forall byte src -> LuaLex.spec_lex src = Some ss -> Lexer.model_lex [src] = Ok lts ->
+  lua_parse (map LexToken.lex_token lts) = Ok (root, e) -> consumed (map LexToken.lex_token lts) e = true ->
+  writable (map LexToken.lex_token lts) root = true ->
+  exists out ss' lts',
+    writer_text (fmt_spaces w) (map LexToken.lex_token lts) (view root) = Ok out /\ Forall byte out /\
+    LuaLex.spec_lex out = Some ss' /\ Lexer.model_lex [out] = Ok lts' /\
+    SameCode.nl_before (map LexToken.lex_token lts') = SameCode.nl_before (map LexToken.lex_token lts) /\
+    HoldsC09.holds_C09 (map LexToken.lex_token lts) root e valid (Some (map LexToken.lex_token lts')) = true.
+Proof. exact FmtRelexMain.luafmt_holds_C09. Qed.
+Print Assumptions C09_luafmt_holds.
+
+Theorem C09_echo_holds : forall src ss lts root e valid,
+  Forall byte src -> LuaLex.spec_lex src = Some ss -> Lexer.model_lex [src] = Ok lts ->
+  lua_parse (map LexToken.lex_token lts) = Ok (root, e) -> consumed (map LexToken.lex_token lts) e = true ->
+  writable (map LexToken.lex_token lts) root = true ->
+  exists out ss' lts',
+    writer_text echo_spaces (map LexToken.lex_token lts) (view root) = Ok out /\ Forall byte out /\
+    LuaLex.spec_lex out = Some ss' /\ Lexer.model_lex [out] = Ok lts' /\
+    SameCode.nl_before (map LexToken.lex_token lts') = SameCode.nl_before (map LexToken.lex_token lts) /\
+    HoldsC09.holds_C09 (map LexToken.lex_token lts) root e valid (Some (map LexToken.lex_token lts')) = true.
+Proof. exact FmtRelexMain.echo_holds_C09. Qed.
+Print Assumptions C09_echo_holds.
+
 (* run level: the formatter pipeline does not change what the trivia automaton sees - the comments of the run, in order,
-   each with its bytes outside white space, and whether the run ends inside an end-of-line comment - whatever the
-   position flags, indent width and depth *)
+   each with its bytes outside white space, whether a line break occurs outside block comments, and whether the run
+   ends inside an end-of-line comment - whatever the position flags, indent width and depth *)
 Theorem C09_run_same_comments : forall cfg r V,
   FmtRelexAuto.arun (V, FmtRelexAuto.AN) (fmt_run cfg r) = FmtRelexAuto.arun (V, FmtRelexAuto.AN) r.
 Proof. exact FmtRelexAuto.fmt_run_arun. Qed.
@@ -352,7 +384,7 @@ Example C09_same_code_nonvacuous :
     exists out lts',
       writer_text (fmt_spaces 2) (map LexToken.lex_token lts) (view root) = Ok out /\ zlist_eqb out C09_relex_src = false /\
       Lexer.model_lex [out] = Ok lts' /\
-      SameCode.same_code (map LexToken.lex_token lts) (map LexToken.lex_token lts') = true.
+      HoldsC09.holds_C09 (map LexToken.lex_token lts) root e true (Some (map LexToken.lex_token lts')) = true.
 Proof.
   eexists _, _, _, _. split.
   { apply Forall_forall. intros x Hx. apply byteb_spec. revert x Hx. apply forallb_forall. vm_compute. reflexivity. }
